@@ -26,6 +26,10 @@ CLAIMED["C17"] = dict(
 CLAIMED["C18"] = dict(
    text="PARTIAL. Theorems C18_one_reply_per_line / C18_reply_is_own_output / C18_buffer_empty / C18_no_call_on_error (Coq, every line sequence, every parser/pool behaviour within the contract ArgumentError | ParserError | HelpRequested | namespace): the session loop writes exactly one reply per non-blank line, in order; each reply is the output of its own command only (buffer empty when a command starts); lines that do not parse make no pool call. What the theorems cannot carry - that real argparse stays inside that contract for arbitrary text, never prints, never exits - is exercised, not proved: token soup / arbitrary printable lines through one or two real sessions on a real pool, checking one reply per line, replies equal to the session model fed with the parser's outcomes, unchanged pool on error/help lines, empty stdout/stderr, session still alive, and history-independence of error/help replies. Commands whose method waits (until-closed) are not sent by the fuzzer.",
    note=TB_CTRL, technique="Coq proof of the session state machine (parser and pool as oracles) + fuzzing correspondence against real sessions (the latter is a test, not a proof)", design="6 C18, 7")
+CLAIMED["C19"] = dict(
+   text="PARTIAL. Theorems C19_serving_until_stop / C19_clients_served / C19_disconnect_is_local / C19_stop / C19_socket_file (Coq, every sequence of start / connect / send / disconnect / stop labels, any number of clients, both transports): serve_forever returns a task and the server listens until that task is cancelled; every client is answered, a disconnect changes no other session; after the cancellation the address accepts nothing, is_serving is false, and the task completes exactly when every connected client has gone (not earlier), whereupon a Unix server's socket file is gone. The theorems are about a model of the lifecycle logic on top of asyncio's stream-server contract; kernel sockets, the selector loop and time cannot be carried by a theorem: they are exercised by the correspondence, which runs the same label sequences against real TCP and Unix servers with raw clients and the bundled CLI client (subprocess) and compares listening / task completion / socket file / per-client replies and server-side close after every label (bounded waits; a hang shows as a timeout where the model predicts completion).",
+   note="Trusted: Coq 8.16.1 kernel; extraction; ocaml/sdriver.ml; harness/srvrun.py (real sockets, subprocess CLI client, bounded waits of VERIF_SRV_TIMEOUT seconds per label); the hand-written lifecycle model theories/srv/SModel.v incl. its rendering of asyncio's Server.close/wait_closed contract (CPython 3.12.1), validated only on explored sequences. Theorems closed under the global context.",
+   technique="Coq proof (inductive invariant of the lifecycle state machine) + model/implementation correspondence over real sockets", design="6 C19, 7")
 NOT_YET = "not claimed in this revision: the check for this property is not registered yet (see DESIGN.md 11 staging)"
 
 checks = []
